@@ -17,7 +17,7 @@ ASSUMPTIONS = PC.ASSUMPTIONS
 EXHAUSTIVE = {"thorough": "all well-formed histories of length 6 over {spawn 5@100, spawn 5@900, exit 5, reap 5, Process(5), "
                           "is_running(o0), kill(o0), nice(o0,1)} that start with spawn 5@100; Process(5)"}
 SPEC_KINDS = ("set", "new", "race")
-N = {"quick": 1100, "thorough": 14000, "search": 2500}
+N = {"quick": 900, "thorough": 14000, "search": 2500}
 
 
 def _alphabet(sh):
